@@ -92,10 +92,12 @@ func (c *Config) Token(ctx context.Context) (*TokenInfo, error) {
 
 func (c *Config) calculateCacheKey() string {
 	digest := sha256.New()
-	digest.Write(stringx.ToBytes(c.ClientID))
-	digest.Write(stringx.ToBytes(c.ClientSecret))
-	digest.Write(stringx.ToBytes(c.TokenURL))
-	digest.Write(stringx.ToBytes(strings.Join(c.Scopes, "")))
+
+	// every part is followed by a separator, so that adjacent parts cannot run into each other
+	for _, part := range append([]string{c.ClientID, c.ClientSecret, c.TokenURL}, c.Scopes...) {
+		digest.Write(stringx.ToBytes(part))
+		digest.Write([]byte{0})
+	}
 
 	return hex.EncodeToString(digest.Sum(nil))
 }
@@ -234,10 +236,12 @@ func (c *Config) Apply(_ context.Context, req *http.Request) error {
 
 func (c *Config) Hash() []byte {
 	digest := sha256.New()
-	digest.Write(stringx.ToBytes(c.ClientID))
-	digest.Write(stringx.ToBytes(c.ClientSecret))
-	digest.Write(stringx.ToBytes(c.TokenURL))
-	digest.Write(stringx.ToBytes(strings.Join(c.Scopes, "")))
+
+	// every part is followed by a separator, so that adjacent parts cannot run into each other
+	for _, part := range append([]string{c.ClientID, c.ClientSecret, c.TokenURL}, c.Scopes...) {
+		digest.Write(stringx.ToBytes(part))
+		digest.Write([]byte{0})
+	}
 
 	return digest.Sum(nil)
 }
